@@ -126,6 +126,9 @@ func judgeC12Int(c *core.Case, cfg *core.Config) core.Verdict {
 	default:
 		v.Classes = append(v.Classes, "int:decimal")
 	}
+	if !isHex && len(src) > 1 && src[0] == '0' {
+		v.Classes = append(v.Classes, "int:leading-zero")
+	}
 	if hexE {
 		v.Classes = append(v.Classes, "int:hex-with-e")
 	}
@@ -367,6 +370,10 @@ func genC12(t *rapid.T) *core.Case {
 		switch rapid.IntRange(0, 4).Draw(t, "form") {
 		case 0:
 			src = strconv.FormatInt(v, 10)
+			// decimal with leading zeros is still decimal (`010` is ten, not eight)
+			if rapid.IntRange(0, 2).Draw(t, "lead0") == 0 {
+				src = strings.Repeat("0", rapid.IntRange(1, 3).Draw(t, "nzeros")) + src
+			}
 		case 1:
 			d := strconv.FormatInt(v, 10)
 			var b strings.Builder
@@ -377,6 +384,9 @@ func genC12(t *rapid.T) *core.Case {
 				b.WriteRune(ch)
 			}
 			src = b.String()
+			if rapid.IntRange(0, 3).Draw(t, "lead0s") == 0 {
+				src = rapid.SampledFrom([]string{"0", "0_", "00"}).Draw(t, "zeros") + src
+			}
 		default:
 			h := strconv.FormatInt(v, 16)
 			var b strings.Builder
